@@ -18,7 +18,7 @@ var zooTypes = map[string][]zf{
 	"Query": {{"title", "", ""}, {"count", "", ""}, {"ratio", "", ""}, {"flag", "", ""}, {"size", "", ""},
 		{"keeper", "Keeper", "keeper"}, {"keepers", "Keeper", ""}, {"animals", "Animal", ""}, {"things", "Thing", ""},
 		{"grid", "Cell", ""}, {"echo", "", "echo"}, {"tags", "", ""}, {"nums", "", ""}, {"find", "Keeper", "find"}, {"boss", "Keeper", ""},
-		{"ghost", "", ""}, {"relay", "", "relay"}, {"pick", "Thing", "pick"}, {"join", "", "join"}, {"span", "", "span"}, {"chief", "Keeper", ""}, {"blob", "", "blob"}, {"tagged", "", "tagged"}},
+		{"ghost", "", ""}, {"relay", "", "relay"}, {"pick", "Thing", "pick"}, {"join", "", "join"}, {"span", "", "span"}, {"chief", "Keeper", ""}, {"blob", "", "blob"}, {"tagged", "", "tagged"}, {"label", "Tag", ""}, {"labelRef", "TagRef", ""}},
 	"Keeper": {{"name", "", ""}, {"age", "", ""}, {"pets", "Animal", ""}, {"friend", "Keeper", ""}, {"cells", "Cell", ""},
 		{"motto", "", "motto"}, {"rank", "", ""}, {"dogs", "Dog", ""}, {"ghost", "", ""}, {"nick", "", "nick"}, {"code", "", "code"}},
 	"Dog":      {{"name", "", ""}, {"legs", "", ""}, {"barks", "", ""}, {"owner", "Keeper", ""}, {"code", "", ""}, {"call", "", "call"}},
@@ -136,6 +136,9 @@ type ReqOpt struct {
 	// Span allows span(r: Range): an input type whose fields have list and
 	// input-object defaults (nested), answered with the argument as received.
 	Span bool
+	// FragVars lets named fragments use a variable ($fv) that every operation
+	// spreading them declares.
+	FragVars bool
 	// VarDirectivesInMeta puts @skip/@include with variables on selections
 	// beneath __schema / __type.
 	VarDirectivesInMeta bool
@@ -150,6 +153,10 @@ type reqGen struct {
 	frags map[string]string      // fragment name -> text
 	nAli  int
 	noVar bool
+	// fragVar: inside the named fragment being generated; the fragment may use
+	// the variable $fv, which every operation that spreads it then declares
+	inFrag   string
+	fragVars map[string]bool // fragment name -> uses $fv
 }
 
 func (g *reqGen) addVar(name, typ string, val interface{}, def string) string {
@@ -326,6 +333,14 @@ func (g *reqGen) argsFor(kind string) string {
 }
 
 func (g *reqGen) directive() string {
+	if g.inFrag != "" && g.o.FragVars && g.t.Bool(1, 4) {
+		// a variable used only inside a named fragment
+		if g.fragVars == nil {
+			g.fragVars = map[string]bool{}
+		}
+		g.fragVars[g.inFrag] = true
+		return " @include(if: $fv)"
+	}
 	switch g.t.Draw(12) {
 	case 0:
 		return " @skip(if: false)"
@@ -365,8 +380,8 @@ func (g *reqGen) fieldsOf(typ string) []zf {
 			if !g.o.Span {
 				continue
 			}
-		case "chief":
-			continue // only through the fixed AltRequests (plain struct fields)
+		case "chief", "label", "labelRef":
+			continue // only through the fixed AltRequests / LabelRequests
 		case "blob":
 			if !g.o.Blob {
 				continue
@@ -498,12 +513,21 @@ func (g *reqGen) selection(typ string, depth int, ind string) string {
 				name := "F" + typ + strconv.Itoa(g.t.Draw(2))
 				if _, ok := g.frags[name]; !ok {
 					g.frags[name] = "" // reserve (prevents self reference)
-					old := g.noVar
-					g.noVar = true
+					old, oldIn := g.noVar, g.inFrag
+					g.noVar, g.inFrag = true, name
 					g.frags[name] = "fragment " + name + " on " + typ + g.selection(typ, depth+2, "") + "\n"
-					g.noVar = old
+					g.noVar, g.inFrag = old, oldIn
 				}
 				if g.frags[name] != "" {
+					if g.fragVars[name] || strings.Contains(g.frags[name], "$fv") {
+						// the operation (or the enclosing fragment's operations) declares it
+						if g.inFrag != "" {
+							g.fragVars[g.inFrag] = true
+						} else if _, ok := g.vars["fv"]; !ok {
+							g.vars["fv"] = "Boolean"
+							g.defs["fv"] = "true"
+						}
+					}
 					b.WriteString(ind + "  ..." + name + g.directive() + "\n")
 					wrote++
 					continue
